@@ -277,7 +277,9 @@ class SerializationMixin:
             raise ValueError(DELTA_IGNORE_ORDER_NEEDS_REPETITION_REPORT)
         if directed:
             for report_key, report_value in result.items():
-                if isinstance(report_value, Mapping):
+                # only these two categories hold {'old_value': ..., 'new_value': ...} records; in the
+                # others a Mapping is user data (e.g. an added item that is a dict with an 'old_value' key)
+                if report_key in ('values_changed', 'type_changes') and isinstance(report_value, Mapping):
                     for path, value in report_value.items():
                         if isinstance(value, Mapping) and 'old_value' in value:
                             del value['old_value']  # type: ignore
